@@ -636,6 +636,83 @@ func c16long(rep *vh.Report) {
 	rep.Eval(1)
 }
 
+// c16fleet: a link that bridges a large fleet: 1500 distinct ArduPilot (system, component) senders on two channels within
+// a few seconds (well inside one 30 s period). Every one of them is a new sender: seven requests and one event each.
+func c16fleet(rep *vh.Report, seed uint64) {
+	if aborted() {
+		return
+	}
+	trs := []*fake.Transport{fake.NewTransport("fleet0"), fake.NewTransport("fleet1")}
+	node := &gomavlib.Node{Endpoints: []gomavlib.EndpointConf{gomavlib.EndpointCustom{ReadWriteCloser: trs[0]}, gomavlib.EndpointCustom{ReadWriteCloser: trs[1]}},
+		Dialect: testDialect, OutVersion: gomavlib.V2, OutSystemID: 9, HeartbeatDisable: true, StreamRequestEnable: true, StreamRequestFrequency: 3}
+	if err := node.Initialize(); err != nil {
+		rep.HarnessError(err.Error())
+		return
+	}
+	var events int64
+	done := make(chan struct{})
+	go func() {
+		defer close(done)
+		for e := range node.Events() {
+			if _, ok := e.(*gomavlib.EventStreamRequested); ok {
+				atomic.AddInt64(&events, 1)
+			}
+		}
+	}()
+	total := vh.Pick(1500, 3000)
+	fed := [2]int{}
+	stalled := false
+	for i := 0; i < total && !stalled; i++ {
+		ti := i % 2
+		sys, comp := byte(1+(i/2)%250), byte(1+(i/2)/250)
+		trs[ti].Feed(hbFrame(sys, comp, 3, 0))
+		fed[ti]++
+		if i%12 == 11 || i == total-1 {
+			// flow control: at most 6 senders (42 requests) outstanding per channel, below the 64-item queue
+			for t := 0; t < 2; t++ {
+				if got := trs[t].WaitWrites(fed[t]*7, 700*time.Millisecond); got < fed[t]*7 {
+					stalled = true
+				}
+			}
+		}
+	}
+	if !safeClose(rep, node) {
+		return
+	}
+	<-done
+	type key struct{ ch, sys, comp byte }
+	per := map[key]int{}
+	for t, tr := range trs {
+		for _, w := range tr.Writes() {
+			if f, _, st := ref.ParseAt(w.Data, 0); st == ref.ParseOK && f.MsgID == 66 && len(f.Payload) >= 4 {
+				per[key{byte(t), f.Payload[2], f.Payload[3]}]++
+			}
+		}
+	}
+	rep.Eval(1)
+	rep.Count("fleet_senders", fed[0]+fed[1])
+	missing, wrong := 0, 0
+	var first string
+	for i := 0; i < fed[0]+fed[1]; i++ {
+		k := key{byte(i % 2), byte(1 + (i/2)%250), byte(1 + (i/2)/250)}
+		switch n := per[k]; {
+		case n == 0:
+			missing++
+			if first == "" {
+				first = fmt.Sprintf("sender #%d (channel %d, system %d, component %d)", i+1, k.ch, k.sys, k.comp)
+			}
+		case n != 7:
+			wrong++
+		}
+	}
+	if missing > 0 || wrong > 0 {
+		rep.Violation("what=sr-count", fmt.Sprintf("of %d distinct ArduPilot senders seen within one period, %d got no stream requests at all and %d a number other than seven; first unserved: %s", fed[0]+fed[1], missing, wrong, first), nil)
+	}
+	if ev := int(atomic.LoadInt64(&events)); ev != fed[0]+fed[1] {
+		rep.Violation("what=sr-event", fmt.Sprintf("%d stream-requested events for %d new senders", ev, fed[0]+fed[1]), nil)
+	}
+}
+
 func TestC16(t *testing.T) {
 	rep := vh.NewReport("C16")
 	defer rep.Finish(t)
@@ -677,6 +754,7 @@ func TestC16(t *testing.T) {
 	}
 	if shard == 0 {
 		c16noHeartbeats(rep)
+		c16fleet(rep, seed)
 	}
 	for i := 0; i < vh.Pick(60, 3000); i++ {
 		if i%nsh == shard {
